@@ -59,6 +59,14 @@ pub fn prose(n: usize, long: bool) -> Inputs {
         ("call_trailing", "#g(a)[", "]"),
         ("if_block", "#if c [", "]"),
         ("in_code", "#{\n  [", "]\n}"),
+        // block elements whose last token meets the closing bracket, with and without a blank
+        ("block_list", "#[- ", "]"),
+        ("block_list_sp", "#[- ", " ]"),
+        ("block_enum_sp", "#[+ ", " ]"),
+        ("block_term_sp", "#[/ t: ", " ]"),
+        ("block_heading_sp", "#[= ", " ]"),
+        ("call_list_sp", "#g(a)[- ", " ]"),
+        ("nested_list_sp", "- #[- ", " ] x"),
     ];
     let mut out = vec![];
     for (cn, pre, post) in &ctx1 {
@@ -262,6 +270,40 @@ pub fn markup_literals() -> Inputs {
     out
 }
 
+/// Line ends inside text that the printer copies as it is (C11): every carrier x every blank
+/// character x LF / CRLF / mixed line ends x a document that does / does not need cleaning elsewhere.
+pub fn line_ends() -> Inputs {
+    let carriers: [(&str, &str); 11] = [
+        ("line_comment", "// c{B}{N}text"),
+        ("line_comment_after_code", "#let a = 1 // c{B}{N}text"),
+        ("block_comment", "/* c{B}{N} d */"),
+        ("raw_block", "```{N}x{B}{N}```"),
+        ("string", "#let v = \"a{B}{N}b\""),
+        ("string_arg", "#f(\"a{B}{N}b\", c)"),
+        ("raw_inline", "`r{B}{N}w`"),
+        ("directive", "// @typstyle off{N}#f(a,{B}{N}  b)"),
+        ("comment_in_code", "#{{N}  // c{B}{N}  a{N}}"),
+        ("comment_in_math", "$ x // c{B}{N} $"),
+        ("comment_in_args", "#f(a, // c{B}{N}  b)"),
+    ];
+    let blanks = ["", " ", "\t", "\u{a0}", "\u{2003}", "\u{3000}", " \u{3000}", "\u{3000} ", "\u{b}", "\u{c}", "\u{85}", "\u{1680}", "\u{202f}", "\u{205f}", "\u{2028}"];
+    let tails = [("clean", ""), ("clean_nl", "{N}"), ("clean_par", "{N}{N}text{N}"), ("dirty", "{N}#{{N}  a{N}{N}  b{N}}"), ("dirty_comment", "{N}// d  ")];
+    let mut out = vec![];
+    for (cn, c) in carriers {
+        for b in blanks {
+            for (tn, t) in tails {
+                for (nn, inner, outer) in [("lf", "\n", "\n"), ("crlf", "\r\n", "\r\n"), ("mixed", "\r\n", "\n"), ("cr", "\r", "\n")] {
+                    // the line end directly after the blank is the 'inner' one
+                    let mut text = c.replace("{B}{N}", &format!("{b}{inner}")).replace("{N}", outer);
+                    text.push_str(&t.replace("{N}", outer));
+                    out.push((format!("line-end:{cn}:{tn}:{nn}"), text));
+                }
+            }
+        }
+    }
+    out
+}
+
 /// Degenerate documents for C11.
 pub fn degenerate() -> Inputs {
     let mut out: Inputs = vec![("degenerate:empty".into(), String::new())];
@@ -293,6 +335,25 @@ pub fn degenerate() -> Inputs {
 }
 
 pub const IMPORT_ITEMS: [&str; 10] = ["a", "b", "c", "a as x", "b as a", "c as c", "a.b", "a.b as d", "B", "a as y"];
+
+fn item_tokens(item: &str) -> Vec<&str> {
+    // identifiers, dots and the keyword 'as' of an import item
+    let mut v = vec![];
+    for w in item.split(' ') {
+        let mut rest = w;
+        while let Some(i) = rest.find('.') {
+            if i > 0 {
+                v.push(&rest[..i]);
+            }
+            v.push(&rest[i..i + 1]);
+            rest = &rest[i + 1..];
+        }
+        if !rest.is_empty() {
+            v.push(rest);
+        }
+    }
+    v
+}
 
 /// All import statements of the bounded alphabet (DESIGN §5 C19). `max_items` <= 4.
 pub fn imports(max_items: usize, trivia: &[(&str, &str)]) -> Inputs {
@@ -356,6 +417,29 @@ pub fn imports(max_items: usize, trivia: &[(&str, &str)]) -> Inputs {
                     out.push(("import:markup:inner-blanks".to_string(), format!("#import \"m.typ\": {}", v.join(", "))));
                     v[pos] = items[pos].replace(" as ", " as  ");
                     out.push(("import:markup:inner-blanks".to_string(), format!("#import \"m.typ\": {}", v.join(", "))));
+                }
+            }
+            // one trivia deviation at every token boundary inside an item (path dots, 'as'): a comment
+            // anywhere in the statement keeps its order, however deep it sits in the item's subtree
+            if items.len() == 2 && mi == 0 {
+                for (tn, t) in trivia {
+                    for pos in 0..items.len() {
+                        let toks = item_tokens(items[pos]);
+                        for cut in 1..toks.len() {
+                            let mut it = String::new();
+                            for (k, tk) in toks.iter().enumerate() {
+                                if k == cut {
+                                    it.push_str(t);
+                                } else if k > 0 && (*tk == "as" || toks[k - 1] == "as") {
+                                    it.push(' ');
+                                }
+                                it.push_str(tk);
+                            }
+                            let mut v: Vec<String> = items.iter().map(|s| s.to_string()).collect();
+                            v[pos] = it;
+                            out.push((format!("import:markup:inner-trivia:{tn}"), format!("#import \"m.typ\": ({})", v.join(", "))));
+                        }
+                    }
                 }
             }
             // one trivia deviation after each item separator (comments make the statement keep its order)
